@@ -17,6 +17,7 @@ import (
 	"verif/harness/props/c01"
 	"verif/harness/refmodel"
 	"verif/harness/wire"
+	"verif/harness/xtree"
 )
 
 var encs = []string{"ttlv", "xml", "json"}
@@ -236,7 +237,7 @@ func Spec() *core.Spec {
 			"9 object types in Get/Export responses and Register/Import requests plus unknown and mismatching object type codes; 50 standard attribute names x 10 TTLV value types; custom/arbitrary attribute names x 10 types; payload types registered for a vendor operation at run time, after the first decode, in a fresh process. " +
 			"Inputs are built by the independent generator (binary) or from the generic tree (XML/JSON). distinct = distinct (class, operation/object/attribute, direction, encoding, value type) combinations",
 		Assumptions: []string{"operation/object/attribute type tables in harness/gen/ops.go are written from the KMIP 1.4 specification"},
-		Required:    []string{"typed_payloads", "opaque_payloads", "objects_typed", "objects_unknown_rejected", "attrs_typed", "attrs_wrong_type_rejected", "attrs_opaque", "late_registration_decodes"},
+		Required:    []string{"typed_payloads", "opaque_payloads", "objects_typed", "objects_unknown_rejected", "attrs_typed", "attrs_wrong_type_rejected", "attrs_opaque", "late_registration_decodes", "late_registration_named_decodes", "concurrent_opaque_decodes"},
 		Families: []core.Family{
 			{Name: "ops-typed", N: nOf(27*2*3*5*3, 27*2*3*5*120), Run: func(c *core.Ctx, r *core.Rand, i int) {
 				op := &gen.Ops[i%27]
@@ -361,6 +362,7 @@ func Spec() *core.Spec {
 			{Name: "objects", N: nOf(9*4*3*4+60*3, 9*4*3*400+60*3*20), Run: func(c *core.Ctx, r *core.Rand, i int) {
 				objectsCase(c, r, i, mode)
 			}},
+			{Name: "concurrent-opaque", N: nOf(40, 4000), Run: concurrentOpaque},
 			{Name: "late-registration", Isolated: true, Exhaustive: true, N: func(string) int { return 2 }, Run: lateRegistration},
 			{Name: "attrs-std", Exhaustive: true, N: func(tier string) int { return 50 * 10 * 3 }, Run: func(c *core.Ctx, r *core.Rand, i int) {
 				at := gen.AttrTypes[i%50]
@@ -473,6 +475,88 @@ func Spec() *core.Spec {
 	}
 }
 
+// concurrentOpaque: many goroutines decode messages carrying custom attributes and unknown operations at the same
+// moment; each must get ITS OWN opaque values back (re-encoding gives its own input bytes).
+func concurrentOpaque(c *core.Ctx, r *core.Rand, i int) {
+	const G = 8
+	per := 40
+	type job struct {
+		in   []byte
+		resp bool
+	}
+	jobs := make([][]job, G)
+	for gi := 0; gi < G; gi++ {
+		for k := 0; k < per; k++ {
+			minor := r.Intn(5)
+			var ch []wire.Node
+			ch = append(ch, text(kmip.TagUniqueIdentifier, fmt.Sprintf("g%d-%d", gi, k)))
+			na := 1 + r.Intn(4)
+			for a := 0; a < na; a++ {
+				name := []string{"x-owner", "x-", "y-team", "Vendor Attribute", "x-cost-centre"}[r.Intn(5)]
+				var val wire.Node
+				switch r.Intn(4) {
+				case 0:
+					val = text(kmip.TagAttributeValue, fmt.Sprintf("worker-%02d-attr-%02d-%d", gi, k, a))
+				case 1:
+					val = integer(kmip.TagAttributeValue, int64(gi*100000+k*10+a))
+				case 2:
+					val = wire.Node{Tag: kmip.TagAttributeValue, Type: wire.ByteString, Bytes: []byte{byte(gi), byte(k), byte(a), 0xEE}}
+				default:
+					val = st(kmip.TagAttributeValue, text(kmip.TagNameValue, fmt.Sprintf("g%d-%d-%d", gi, k, a)), integer(kmip.TagAttributeIndex, int64(gi)))
+				}
+				ch = append(ch, st(kmip.TagAttribute, text(kmip.TagAttributeName, name), val))
+			}
+			// AddAttribute carries one attribute; use an unknown operation half of the time (opaque payload with attributes inside)
+			var t wire.Node
+			if r.Bool() {
+				t = reqTree(minor, int64(kmip.OperationAddAttribute), st(0, ch[0], ch[1]))
+			} else {
+				t = reqTree(minor, int64(0x80000000|uint32(gi*1000+k)), st(0, ch...))
+			}
+			jobs[gi] = append(jobs[gi], job{in: wire.Gen(t)})
+		}
+	}
+	type failure struct{ sig, what, in, out string }
+	fails := make(chan failure, G*per)
+	start := make(chan struct{})
+	done := make(chan struct{}, G)
+	for gi := 0; gi < G; gi++ {
+		go func(gi int) {
+			defer func() { done <- struct{}{} }()
+			<-start
+			for _, j := range jobs[gi] {
+				var m kmip.RequestMessage
+				var err error
+				var re []byte
+				p, pv, stk := core.Guard(func() {
+					err = ttlv.UnmarshalTTLV(append([]byte{}, j.in...), &m)
+					if err == nil {
+						re = ttlv.MarshalTTLV(&m)
+					}
+				})
+				switch {
+				case p:
+					fails <- failure{core.PanicSig(pv, stk), fmt.Sprintf("concurrent decode panicked: %v", pv), hx(j.in), stk}
+				case err != nil:
+					fails <- failure{"C06:concurrent:decode-error", "a message with custom attributes does not decode while other goroutines decode: " + err.Error(), hx(j.in), ""}
+				case !bytes.Equal(re, j.in):
+					fails <- failure{"C06:concurrent:opaque-not-preserved", "a message decoded while other goroutines decode does not re-encode to its own bytes (opaque values mixed up between calls)", hx(j.in), hx(re)}
+				}
+			}
+		}(gi)
+	}
+	close(start)
+	for gi := 0; gi < G; gi++ {
+		<-done
+	}
+	close(fails)
+	c.Count("concurrent_opaque_decodes", int64(G*per))
+	c.Distinct(core.Hash64("concurrent-opaque", fmt.Sprint(i)))
+	for f := range fails {
+		c.Violation(f.sig, f.what, map[string]any{"input": f.in, "reencoded_or_stack": f.out})
+	}
+}
+
 // vendor payload types registered at run time (public API kmip.RegisterOperationPayload)
 type vendorRequest struct {
 	UniqueIdentifier string
@@ -505,8 +589,10 @@ func lateRegistration(c *core.Ctx, r *core.Rand, i int) {
 			}
 		}
 	}
-	// 2. registration at run time
+	// 2. registration at run time: the payload types and, for the text encodings, a name for the operation code
 	kmip.RegisterOperationPayload[vendorRequest, vendorResponse](vendorOp)
+	ttlv.RegisterEnum(kmip.TagOperation, map[kmip.Operation]string{vendorOp: "VendorRotate"})
+	ttlv.RegisterEnum(kmip.TagResultReason, map[kmip.ResultReason]string{0x80000777: "VendorQuotaExceeded"})
 	// 3. the operation now decodes to the registered types
 	for _, enc := range encs {
 		for _, resp := range []bool{false, true} {
@@ -539,6 +625,88 @@ func lateRegistration(c *core.Ctx, r *core.Rand, i int) {
 				c.Violation(sig+":wrong-operation", "payload reports another operation", nil)
 			}
 			preserved(c, sig+":content", enc, in, d.msg, t, label)
+		}
+	}
+	// 4. the built-in operations, written BY NAME by the independent writers, still decode to their registered types,
+	// and so does the vendor operation under the name just registered
+	g := gen.New(r, gen.Mode{Minor: 4, Gate: true, Text: gen.TextASCII, TextDates: true}, refmodel.Gates())
+	for _, enc := range []string{"xml", "json"} {
+		for k := range gen.Ops {
+			op := &gen.Ops[k]
+			for _, resp := range []bool{false, true} {
+				tag, want := kmip.TagRequestPayload, reflect.PointerTo(op.Req)
+				if resp {
+					tag, want = kmip.TagResponsePayload, reflect.PointerTo(op.Resp)
+				}
+				nodes, err := refmodel.TreeTag(tag, g.Payload(op, resp), 4)
+				if err != nil || len(nodes) != 1 {
+					panic(fmt.Sprintf("harness: %v", err))
+				}
+				var t wire.Node
+				if resp {
+					t = respTree(4, int64(op.Code), nodes[0])
+				} else {
+					t = reqTree(4, int64(op.Code), nodes[0])
+				}
+				in := xtree.WriteXMLNamed(t)
+				if enc == "json" {
+					in = xtree.WriteJSONNamed(t)
+				}
+				if !bytes.Contains(in, []byte(`"`+op.Name+`"`)) {
+					panic("harness: operation not written by name: " + op.Name)
+				}
+				label := fmt.Sprintf("%s %s named in %s after a vendor operation name was registered", op.Name, dirName(resp), enc)
+				c.Count("late_registration_named_decodes", 1)
+				c.Distinct(core.Hash64("late-named", enc, op.Name, dirName(resp)))
+				d, derr, ok := decodeMsg(c, enc, in, resp, label)
+				if !ok {
+					continue
+				}
+				sig := fmt.Sprintf("C06:late-registration:builtin-by-name:%s:%s", dirName(resp), enc)
+				if derr != nil {
+					c.Violation(sig+":decode-error", fmt.Sprintf("%s does not decode: %v", label, derr), map[string]any{"input": show(enc, in)})
+					continue
+				}
+				if reflect.TypeOf(d.payload) != want {
+					c.Violation(sig+":wrong-type", fmt.Sprintf("%s decodes to %T, the type registered for the operation is %s", label, d.payload, want), map[string]any{"input": show(enc, in)})
+					continue
+				}
+				preserved(c, sig+":content", enc, in, d.msg, t, label)
+			}
+		}
+		// the vendor operation by its registered name
+		for _, resp := range []bool{false, true} {
+			pl := st(0, text(kmip.TagUniqueIdentifier, "by-name"))
+			var t wire.Node
+			var want reflect.Type
+			if resp {
+				t, want = respTree(4, int64(vendorOp), pl), reflect.TypeFor[*vendorResponse]()
+			} else {
+				t, want = reqTree(4, int64(vendorOp), pl), reflect.TypeFor[*vendorRequest]()
+			}
+			in := xtree.WriteXML(t)
+			if enc == "json" {
+				in = xtree.WriteJSON(t)
+			}
+			hexv := []byte(fmt.Sprintf("0x%08X", uint32(vendorOp)))
+			if !bytes.Contains(in, hexv) {
+				panic("harness: vendor operation code not found in document")
+			}
+			in = bytes.Replace(in, hexv, []byte("VendorRotate"), 1)
+			label := fmt.Sprintf("vendor operation %s written as \"VendorRotate\" in %s", dirName(resp), enc)
+			c.Count("late_registration_named_decodes", 1)
+			d, derr, ok := decodeMsg(c, enc, in, resp, label)
+			if !ok {
+				continue
+			}
+			sig := fmt.Sprintf("C06:late-registration:vendor-by-name:%s:%s", dirName(resp), enc)
+			if derr != nil {
+				c.Violation(sig+":decode-error", fmt.Sprintf("%s does not decode: %v", label, derr), map[string]any{"input": show(enc, in)})
+				continue
+			}
+			if reflect.TypeOf(d.payload) != want {
+				c.Violation(sig+":wrong-type", fmt.Sprintf("%s decodes to %T, the type registered for the operation is %s", label, d.payload, want), map[string]any{"input": show(enc, in)})
+			}
 		}
 	}
 }
